@@ -16,6 +16,7 @@ import DtailModel.Model.Command
 import DtailModel.Model.Base64
 import DtailModel.Model.Auth
 import DtailModel.Model.KnownHosts
+import DtailModel.Model.Perm
 open Dtail
 
 structure Res where
@@ -440,6 +441,83 @@ def opC17Wrap : List String → Res
     { m := r, s := r, t := s!"{state},{if trustAll = "1" then "trustall" else "ask"}" }
   | _ => bad
 
+/-! C08 -/
+
+/-- the documented rule syntax, read independently of the model: ["readfiles:"]["!"]regex -/
+def specRuleOf (rule : Bytes) : Bool × Bytes :=
+  let r := if hasPrefix (b!"readfiles:") rule then rule.drop 10 else rule
+  if r.head? = some BANG then (true, r.drop 1) else (false, r)
+
+structure PathOracle where
+  clean : Option Bytes
+  regular : Bool
+  bits : List Char        -- per rule (spec's regex): 'E' no compile, '1' match, '0' no match
+
+def parsePathOracle (s : String) : Option PathOracle :=
+  if s = "unresolved" then some ⟨none, false, []⟩ else
+  match s.splitOn "," with
+  | [c, r, b] => (unhex c).map fun c => ⟨some c, r = "true", b.toList⟩
+  | [c, r] => (unhex c).map fun c => ⟨some c, r = "true", []⟩
+  | _ => none
+
+/-- the model's decision, with the regexp engine answered from the oracle table; `none` if
+    the model asks about a regex the table does not cover (its parse differs from the spec's) -/
+def c08decide (user : Bytes) (rules : List Bytes) (o : PathOracle) : Option Bool × Bool :=
+  let specs := rules.map specRuleOf
+  let table : List (Bytes × Char) := (specs.map (·.2)).zip o.bits
+  let covered := (rules.map parseRule).all fun r => table.any (·.1 == r.regex)
+  let m : MatchOracle := fun re _ => match table.find? (·.1 == re) with
+    | some (_, '1') => some true
+    | some (_, '0') => some false
+    | _ => none
+  let fs : FsOracle := { resolve := fun _ => o.clean, regular := fun _ => o.regular }
+  let modelAns := hasFilePermission fs m user rules []
+  -- specification: last matching rule (spec syntax) is an allow, all compile, regular, resolved
+  let specAns :=
+    if user = Facts.scheduleUserBytes ∨ user = Facts.continuousUserBytes then true else
+    o.clean.isSome && o.regular && !o.bits.contains 'E' &&
+      (((specs.zip o.bits).filter (·.2 == '1')).getLast?.map (fun p => !p.1.1) == some true)
+  (if covered ∨ o.clean.isNone ∨ !o.regular then some modelAns else none, specAns)
+
+def parseRulesArg (s : String) : Option (List Bytes) :=
+  if s = "-" then some [] else (s.splitOn ",").mapM unhex
+
+def opC08Perm : List String → Res
+  | [u, _path, rules, oracle] => match unhex u, parseRulesArg rules, parsePathOracle oracle with
+    | some u, some rules, some o =>
+      let (mo, sp) := c08decide u rules o
+      let render (b : Bool) := if rules.isEmpty then "nouser" else boolStr b
+      { m := match mo with | some b => render b | none => "model-asks-uncovered-regex", s := render sp,
+        t := joinWith "," ((if sp then ["allowed"] else ["denied"]) ++ (if o.clean.isNone then ["unresolved"] else [])
+          ++ (if !o.regular ∧ o.clean.isSome then ["special"] else []) ++ (if o.bits.contains 'E' then ["badregex"] else [])
+          ++ (if rules.any (fun r => (specRuleOf r).2.contains COLON) then ["colon-in-pattern"] else [])
+          ++ (if rules.any (fun r => (specRuleOf r).1) then ["deny-rule"] else [])) }
+    | _, _, _ => bad
+  | _ => bad
+
+def opC08Cat : List String → Res
+  | [_glob, rules, oracle] => match parseRulesArg rules with
+    | some rules =>
+      let os := if oracle = "-" then [] else (oracle.splitOn ";").filterMap parsePathOracle
+      let decide (o : PathOracle) := (c08decide (b!"verif") rules o)
+      let servedBy (f : PathOracle → Bool) : String :=
+        -- a regular file in the tree holds "F:<relative name>"; the served lines are those tokens, sorted
+        let names := (os.filter f).filterMap fun o => o.clean.map fun c =>
+          let parts := splitOnByte 47 c
+          -- relative name = the path below the tree root (c08tree-<pid>/...)
+          let idx := (parts.findIdx? (fun p => hasPrefix (b!"c08tree-") p)).getD 0
+          b!"F:" ++ joinByte 47 (parts.drop (idx + 1))
+        hexOf (joinByte 124 (sortBytes names))
+      let mServed := servedBy fun o => (decide o).1 == some true
+      let sServed := servedBy fun o => (decide o).2
+      let anyDenied (f : PathOracle → Bool) := os.any (fun o => !f o) ∨ os.isEmpty
+      if rules.isEmpty then { m := "nouser", s := "nouser" } else
+      { m := s!"served={mServed};warned={boolStr (anyDenied fun o => (decide o).1 == some true)}",
+        s := s!"served={sServed};warned={boolStr (anyDenied fun o => (decide o).2)}",
+        t := joinWith "," ((if os.length > 1 then ["glob"] else []) ++ (if mServed ≠ "-" then ["served"] else ["nothing"])) }
+    | none => bad
+  | _ => bad
+
 def dispatch (line : String) : Res :=
   match (line.splitOn " ").filter (· ≠ "") with
   | "c01.reader" :: a => opC01Reader a
@@ -447,6 +525,8 @@ def dispatch (line : String) : Res :=
   | "c01.e2e" :: a => opC01E2E a
   | "c03.grep" :: a => opC03Grep a
   | "c03.e2e" :: a => opC03E2E a
+  | "c08.perm" :: a => opC08Perm a
+  | "c08.cat" :: a => opC08Cat a
   | "c09.keys" :: a => opC09Keys a
   | "c09.password" :: a => opC09Password a
   | "c09.health" :: a => opC09Health a
